@@ -218,6 +218,33 @@ func (w *world) rndPlan(n int) votePlan {
 		if g.R.Intn(4) == 0 { // a competing definition for the same id
 			p.updates = append(p.updates, updVote{id, w.rndChanDef(), w.nearF(n)})
 		}
+		if g.R.Intn(5) == 0 {
+			// … or a near-duplicate of the first: different only in edge white space of the opts, in the case of a
+			// letter, in an aggregator / stream id that has the same low bits.  Each gets at most f votes, together
+			// more than f: they are different definitions and their votes must not be pooled.
+			first := p.updates[len(p.updates)-1]
+			cp := normalise(first.def).(map[string]any)
+			switch g.R.Intn(4) {
+			case 0:
+				cp["opts"] = jStr(cp["opts"]) + "20"
+			case 1:
+				cp["opts"] = "0a" + jStr(cp["opts"])
+			case 2:
+				if sts := jArr(cp["streams"]); len(sts) > 0 {
+					st := jObj(sts[0])
+					st["agg"] = S(jInt(st["agg"]) + 256)
+				}
+			default:
+				if sts := jArr(cp["streams"]); len(sts) > 0 {
+					st := jObj(sts[0])
+					st["sid"] = S(jInt(st["sid"]) + 1<<24)
+				}
+			}
+			a := 1 + g.R.Intn(w.f)
+			first.voters = a
+			p.updates[len(p.updates)-1] = first
+			p.updates = append(p.updates, updVote{id, cp, w.f + 1 - a})
+		}
 		if g.R.Intn(6) == 0 { // … or one that differs only in the order of its streams (order is significant)
 			base := J{"format": "2", "streams": []any{J{"sid": "1", "agg": "1"}, J{"sid": "2", "agg": "1"}, J{"sid": "3", "agg": "3"}}, "opts": ""}
 			perm := J{"format": "2", "streams": []any{J{"sid": "2", "agg": "1"}, J{"sid": "1", "agg": "1"}, J{"sid": "3", "agg": "3"}}, "opts": ""}
